@@ -64,62 +64,55 @@ Proof.
   - apply pair_le_canon; [apply to_le_full_ok; lia|apply to_le_full_canon; lia].
 Qed.
 
-(* fromhex on an even-length prefix *)
-Lemma fromhex_app a b : Nat.even (List.length a) = true ->
+(* fromhex on an even-length prefix of hex digits *)
+Definition is_hex (c : Z) : bool := match unhex c with Some _ => true | None => false end.
+
+Lemma fromhex_pair a b r h l : unhex a = Some h -> unhex b = Some l ->
+  fromhex (a :: b :: r) = bindR (fromhex r) (fun t => Val (16 * h + l :: t)).
+Proof. intros Ha Hb. cbn [fromhex]. rewrite Ha, Hb. reflexivity. Qed.
+
+Lemma fromhex_app a b : Nat.even (List.length a) = true -> forallb is_hex a = true ->
   fromhex (a ++ b) = bindR (fromhex a) (fun x => bindR (fromhex b) (fun y => Val (x ++ y))).
 Proof.
-  revert b. induction a using pair_le_ind; intros b0 He.
+  revert b. induction a using pair_le_ind; intros b0 He Hh.
   - cbn [app fromhex bindR]. destruct (fromhex b0); reflexivity.
   - discriminate.
-  - cbn [app]. change (fromhex (a :: b :: a0 ++ b0)) with
-      (match unhex a, unhex b with
-       | Some h, Some l => bindR (fromhex (a0 ++ b0)) (fun t => Val (16 * h + l :: t))
-       | _, _ => if existsb (fun c => (c =? 32) || ((9 <=? c) && (c <=? 13))) [a; b] then Exc Unmodelled else Exc ValueError
-       end).
-    change (fromhex (a :: b :: a0)) with
-      (match unhex a, unhex b with
-       | Some h, Some l => bindR (fromhex a0) (fun t => Val (16 * h + l :: t))
-       | _, _ => if existsb (fun c => (c =? 32) || ((9 <=? c) && (c <=? 13))) [a; b] then Exc Unmodelled else Exc ValueError
-       end).
-    destruct (unhex a); [|destruct (existsb _ [a; b]); reflexivity].
-    destruct (unhex b); [|destruct (existsb _ [a; b]); reflexivity].
-    rewrite IHa by exact He. destruct (fromhex a0); cbn [bindR]; [|reflexivity].
+  - cbn [forallb] in Hh. apply andb_true_iff in Hh as [Ha Hh]. apply andb_true_iff in Hh as [Hb Hh].
+    unfold is_hex in Ha, Hb. destruct (unhex a) as [h|] eqn:Ea; [|discriminate]. destruct (unhex b) as [l|] eqn:Eb; [|discriminate].
+    cbn [app]. rewrite (fromhex_pair a b (a0 ++ b0) h l Ea Eb), (fromhex_pair a b a0 h l Ea Eb).
+    rewrite IHa by assumption. destruct (fromhex a0); cbn [bindR]; [|reflexivity].
     destruct (fromhex b0); reflexivity.
 Qed.
 
 Definition pad_even (h : list Z) : list Z := if Nat.even (List.length h) then h else 48 :: h.
 
+Lemma is_hex_hexdigit d : 0 <= d < 16 -> is_hex (hexdigit d) = true.
+Proof. intros H. unfold is_hex. rewrite unhex_hexdigit by exact H. reflexivity. Qed.
+
 Lemma fromhex_pairs ds : digits_ok 16 ds ->
   fromhex (pad_even (map hexdigit (rev ds))) = Val (rev (pair_le ds)) /\
-  Nat.even (List.length (pad_even (map hexdigit (rev ds)))) = true.
+  Nat.even (List.length (pad_even (map hexdigit (rev ds)))) = true /\
+  forallb is_hex (pad_even (map hexdigit (rev ds))) = true.
 Proof.
   induction ds using pair_le_ind; intros Hok.
-  - split; reflexivity.
+  - repeat split; reflexivity.
   - inversion Hok as [|? ? Ha _]; subst. unfold digit_ok in Ha. cbn [rev app map pad_even List.length Nat.even pair_le].
-    split; [|reflexivity].
-    change (fromhex [48; hexdigit a]) with
-      (match unhex 48, unhex (hexdigit a) with
-       | Some h, Some l => bindR (fromhex []) (fun t => Val (16 * h + l :: t))
-       | _, _ => if existsb (fun c => (c =? 32) || ((9 <=? c) && (c <=? 13))) [48; hexdigit a] then Exc Unmodelled else Exc ValueError
-       end).
-    rewrite (unhex_hexdigit a Ha). reflexivity.
+    split; [|split; [reflexivity|]].
+    + rewrite (fromhex_pair 48 (hexdigit a) [] 0 a eq_refl (unhex_hexdigit a Ha)). reflexivity.
+    + cbn [forallb]. rewrite (is_hex_hexdigit a Ha). reflexivity.
   - inversion Hok as [|? ? Ha H']; subst. inversion H' as [|? ? Hb Hr]; subst. unfold digit_ok in Ha, Hb.
-    destruct (IHds Hr) as [E1 E2].
+    destruct (IHds Hr) as (E1 & E2 & E3).
     cbn [rev]. rewrite <- app_assoc. cbn [app]. rewrite map_app. cbn [map].
     assert (Hp : pad_even (map hexdigit (rev ds) ++ [hexdigit b; hexdigit a])
                  = pad_even (map hexdigit (rev ds)) ++ [hexdigit b; hexdigit a]).
     { unfold pad_even. rewrite app_length. cbn [List.length]. rewrite Nat.add_comm. cbn [Nat.add Nat.even].
       destruct (Nat.even (List.length (map hexdigit (rev ds)))); reflexivity. }
-    rewrite Hp. split.
-    + rewrite fromhex_app by exact E2. rewrite E1. cbn [bindR].
-      change (fromhex [hexdigit b; hexdigit a]) with
-        (match unhex (hexdigit b), unhex (hexdigit a) with
-         | Some h, Some l => bindR (fromhex []) (fun t => Val (16 * h + l :: t))
-         | _, _ => if existsb (fun c => (c =? 32) || ((9 <=? c) && (c <=? 13))) [hexdigit b; hexdigit a] then Exc Unmodelled else Exc ValueError
-         end).
-      rewrite (unhex_hexdigit a Ha), (unhex_hexdigit b Hb). cbn [fromhex bindR pair_le rev].
-      f_equal. f_equal. f_equal. lia.
+    rewrite Hp. split; [|split].
+    + rewrite fromhex_app by assumption. rewrite E1. cbn [bindR].
+      rewrite (fromhex_pair (hexdigit b) (hexdigit a) [] b a (unhex_hexdigit b Hb) (unhex_hexdigit a Ha)).
+      cbn [fromhex bindR pair_le rev]. f_equal. f_equal. f_equal. lia.
     + rewrite app_length. cbn [List.length]. rewrite Nat.add_comm. cbn [Nat.add Nat.even]. exact E2.
+    + rewrite forallb_app, E3. cbn [forallb]. rewrite (is_hex_hexdigit a Ha), (is_hex_hexdigit b Hb). reflexivity.
 Qed.
 
 (* the statement decode_base58 needs *)
